@@ -168,7 +168,11 @@ def lean_check(modules, tier):
             scan = lean_source_scan()
             if scan:
                 res["failures"].append("forbidden token(s): " + "; ".join(scan[:5]))
-            audit = "\n".join(["import FastraceModel.Props.%s" % m for m in modules]) + "\nopen Fastrace\n"
+            nss = []
+            for m in modules:
+                src = strip_lean_comments(open(os.path.join(LEAN, "FastraceModel", "Props", m + ".lean")).read())
+                nss += [x for x in re.findall(r"^namespace\s+(\S+)", src, flags=re.M) if x not in nss]
+            audit = "\n".join(["import FastraceModel.Props.%s" % m for m in modules]) + "\nopen %s\n" % " ".join(nss or ["Fastrace"])
             audit += "\n".join("#print axioms %s" % t for _, t in thms) + "\n"
             os.makedirs(BUILD, exist_ok=True)
             ap = os.path.join(BUILD, "Audit_%s.lean" % "_".join(modules))
